@@ -333,12 +333,13 @@ template <int D> void compareElems(std::vector<vm::Elem> got, const std::vector<
 }
 
 //---------------------------------------------------------------- C02 / C08 / C12 building block: one checked execution
-template <class E> struct CheckedRun {
+template <class A, class B, class C> using SeqAlgoT = TbfAlgorithm<A, B, C>;
+template <class E, template <class, class, class> class Algo = SeqAlgoT> struct CheckedRun {
     static constexpr int D = E::Cfg::Dim;
     using Real = typename E::Cfg::RealType;
     PolyRun<E, typename E::CheckedPoly> pr;
     vp::RecCtx<D> rc;
-    std::unique_ptr<TbfAlgorithm<Real, typename E::CheckedPoly, typename E::Space>> algo;
+    std::unique_ptr<Algo<Real, typename E::CheckedPoly, typename E::Space>> algo;
     vm::Cells<D> cells;
     std::vector<Coord<D>> leafOf;
     bool ok = true;
@@ -347,7 +348,7 @@ template <class E> struct CheckedRun {
         pr.build(c);
         fillRecCtx<E>(rc, *pr.tree, *pr.cfg, &c.parts, &c.parts);
         E::CheckedPoly::globalCtx() = &rc;
-        algo.reset(new TbfAlgorithm<Real, typename E::CheckedPoly, typename E::Space>(*pr.cfg, c.upper));
+        algo.reset(new Algo<Real, typename E::CheckedPoly, typename E::Space>(*pr.cfg, c.upper));
         leafOf = tbx::leafOfParticle<D>(*pr.tree, pr.N, &ok);
         if (!ok) { res.fail("index-multiset", "original indices are not a permutation"); return; }
         cells.build(c.geo.H, tbx::leafSet<D>(leafOf));
